@@ -123,6 +123,25 @@ def rule_guarded_stores(report, prog):
                          '%s no longer computes the range of the control TLV' % g.qname)
 
 
+def rule_control_tlv_dispatch(report, prog, rule='C03-R1'):
+    """Lock Control TLVs (type 1) reserve *bits* (size field / 8 rounded up), Memory Control TLVs (type 2) reserve *bytes*: each
+    reader hands the value to the helper of its own kind and adds the result to the skip set."""
+    want = {1: 'get_lock_byte_range', 2: 'get_rsvd_byte_range'}
+    for q in ('nfc.tag.tt1.Type1Tag.NDEF._read_ndef_data', 'nfc.tag.tt2.Type2Tag.NDEF._read_ndef_data'):
+        f = prog.func(q)
+        got = {}
+        for i in ast.walk(f.node):
+            if isinstance(i, ast.If) and isinstance(i.test, ast.Compare) and norm(i.test.left) == 'tlv_t' and isinstance(i.test.ops[0], ast.Eq):
+                t = try_const(i.test.comparators[0])
+                if t in want:
+                    got[t] = sorted(set(norm(c.func) for st in i.body for c in ast.walk(st)
+                                        if isinstance(c, ast.Call) and norm(c.func) in want.values()))
+        for t, fn in sorted(want.items()):
+            report.check(got.get(t) == [fn], rule, key(q, 'control TLV type %d is evaluated by %s' % (t, fn)), f.loc(),
+                         '%s evaluates control TLV type %d with %s: lock control sizes are bits, memory control sizes are bytes -- the reserved range '
+                         'is wrong and NDEF data / capacity no longer avoid it' % (q, t, got.get(t)))
+
+
 # product -> allowed constant stores (start, stop) and expected value length
 VENDOR = {
     'nfc.tag.tt1_broadcom.Topaz._format': {'mem': [(8, 14, 6), (9, 10, 1), (14, 104, 90)], 'area': (8, 104)},
@@ -220,6 +239,7 @@ def rule_t34(report, prog):
 
 
 def run(report, prog, tier):
+    rule_control_tlv_dispatch(report, prog)
     rule_guarded_stores(report, prog)
     rule_vendor(report, prog)
     c02.rule_writeback(report, prog)
